@@ -6,13 +6,13 @@ from . import core
 SPEC_DIR = os.path.join(core.SPEC, "lp")
 
 
-def family(cfg, tier, seed, quick_n, sim=None):
+def family(cfg, tier, seed, quick_n, sim=None, module="LpGen.tla"):
     """Exhaustive family (cfg) with a seeded stride sample in the quick tier, or a
     TLC simulation (`sim` = (num, depth)) of the same machine."""
     tag = "lp" + cfg[:-4]
     if sim:
         num, depth = sim
-        cs, g, d = core.gen_cases(SPEC_DIR, "LpGen.tla", cfg, tag, workers=1,
+        cs, g, d = core.gen_cases(SPEC_DIR, module, cfg, tag, workers=1,
                                   extra=["-simulate", f"num={num}", "-depth", str(depth), "-seed", str(seed)],
                                   cache_key=[num, depth, seed])
         meta = {"cases": len(cs), "simulated_behaviours": num}
@@ -22,7 +22,7 @@ def family(cfg, tier, seed, quick_n, sim=None):
             k = len(cs) // quick_n
             cs = cs[seed % k::k]
         return cs, meta
-    cs, g, d = core.gen_cases(SPEC_DIR, "LpGen.tla", cfg, tag, workers=8)
+    cs, g, d = core.gen_cases(SPEC_DIR, module, cfg, tag, workers=8)
     for i, c in enumerate(cs):
         c["id"] = f"{cfg[:-4]}_{i}"
     meta = {"cases": len(cs), "gen_states": d, "gen_transitions": g}
